@@ -181,7 +181,7 @@ Proof.
           end).
   unfold opt_arr, opt. cbn [jget_with]. rewrite str_eqb_refl.
   unfold arguments_json at 1. cbn [option_map].
-  change (JArr (map (fun x => JObj (argument_fields x)) match dir_args d with Some x => args_list x | None => [] end))
+  change (JArr (map (fun y => JObj (argument_fields y)) match dir_args d with Some x => args_list x | None => [] end))
     with (arguments_json (dir_args d)).
   rewrite arr_arguments. reflexivity.
 Qed.
